@@ -320,7 +320,7 @@ void Flatten::Apply(const UnicodeString &in, UnicodeString &out) const {
       ++i;
     } else {
       out.append(character);
-      ++i;
+      i += U16_LENGTH(character);
     }
   }
 }
